@@ -309,6 +309,9 @@ func C15(p *core.Program, r *core.Report) {
 			r.Check(okPos, "report-item/NewStatusReport/asserted-true-position", "an item is asserted only at the reported status position", p.Pos(bs.Pos()), "", "NewBundleStatusItem(true) not guarded by position == statusItem")
 		}
 	}
+	// the "is the report-to endpoint ours" test walks the MuxAgent's children: the list must be read under its lock
+	checkMuxChildrenGuarded(p, r)
+
 }
 
 func boolToInt(v ssa.Value) ssa.Value {
